@@ -32,20 +32,21 @@ for d in sorted(glob.glob(os.path.join(SEEDED, "*", "meta.json"))):
 
 out = ["# Seeded changes\n",
        "Each directory holds one change to NetworkAttackSimulator written by a fresh sub-agent that was given only the text of",
-       "one property and a scratch worktree (nothing from /verif): `patch.diff` (applies to the pinned tree with",
+       "one property and a scratch worktree (nothing from /verif; five rounds, see DESIGN.md §12): `patch.diff` (applies to the pinned tree with",
        "`git -C /repo apply`), `demo.py` (exit 0 on the clean tree, non-zero with the patch), the agent's `notes.md`, and",
        "`meta.json` (property broken, what the change needs to manifest, what was run to confirm it, which registered quick",
        "checks reported it). Every change compiles and passes the 1092 pinned tests. None is committed to /repo.",
        "Confirm / re-evaluate one with `tools/confirm_seeded.py seeded/<id> <Cxx> <id> [--repo DIR]`.\n",
        f"{len(rows)} changes; target check reports {sum(1 for r in rows if r.get('detected_by_target_check'))} of them; "
        f"some check reports {sum(1 for r in rows if r.get('checks_reporting'))}.\n",
-       "| id | breaks | target check reports it | all checks reporting | what it needs to manifest |",
-       "|---|---|---|---|---|"]
+       "| id | round | breaks | target check reports it | all checks reporting | what it needs to manifest |",
+       "|---|---|---|---|---|---|"]
 for r in rows:
     needs = (r.get("needs") or "").replace("|", "\\|")
     if len(needs) > 330:
         needs = needs[:327] + "..."
-    out.append(f"| `{r['id']}` | {r['breaks']} | {'yes' if r.get('detected_by_target_check') else '**no**'} | "
+    tgt = ("yes" if r.get("target_concrete") else "yes (no failing input)") if r.get("detected_by_target_check") else "**no**"
+    out.append(f"| `{r['id']}` | {r.get('round', 1)} | {r['breaks']} | {tgt} | "
                f"{', '.join(r.get('checks_reporting', [])) or '-'} | {needs} |")
 out.append("")
 open(os.path.join(SEEDED, "README.md"), "w").write("\n".join(out))
